@@ -274,7 +274,7 @@ var boundaryMantissas = []string{
 	"4503599627370495", "4503599627370496", "4503599627370497",
 	"18446744073709551615", "18446744073709551616", "18446744073709551617", "18446744073709551614",
 	"9223372036854775807", "9223372036854775808", "9223372036854775809",
-	"1844674407370955161", "1844674407370955162", "18446744073709551610", "18446744073709551609",
+	"1844674407370955161", "1844674407370955162", "18446744073709551610", "18446744073709551609", "18446744073709551620", "18446744073709551630",
 	"8388607", "8388608", "8388609", "16777215", "16777216", "16777217", "16777219",
 	"1000000000000000", "1000000000000001", "999999999999999", "10000000", "10000001",
 	"17976931348623157", "17976931348623158", "17976931348623159", "179769313486231580793",
